@@ -8,7 +8,7 @@ from types import SimpleNamespace
 
 from .. import dag
 from ..arr import Arr
-from ..pe import PE, Obj, PERaise, Top, NAN
+from ..pe import PE, Obj, PERaise, Top, NAN, decide_on_values
 from ..src import load
 
 LEVEL = "other"
@@ -112,14 +112,15 @@ def run(chk):
                     continue
 
                 def assume(text, env, rname=rname):
-                    s = " ".join(text.split())
-                    if "abs(umax)" in s:
-                        return False  # generic N*logxmax != 0 (the branch only avoids 0**0)
-                    rep = {"logxmin": Fraction(-2), "logxmax": Fraction(-1), "_atol_eps": EPS,
+                    # judged on the values (the symbols this check passes in), not on the names of the source's locals; a generic
+                    # product N*logxmax is not within a tolerance of zero (that branch only avoids 0**0)
+                    rep = {"lmin": Fraction(-2), "lmax": Fraction(-1),
                            "logx": {"below": Fraction(-3), "inside": Fraction(-3, 2), "above": Fraction(-1, 2)}[rname]}
-                    return _decide(s, rep)
+                    return decide_on_values(pe_box[0], " ".join(text.split()), env, rep)
 
+                pe_box = [None]
                 pe = PE(src, assume=assume)
+                pe_box[0] = pe
                 pe.ext["numpy.finfo"] = lambda p, a, k: SimpleNamespace(eps=EPS)
                 if poison:
                     base_exp = pe.ext.get("numpy.exp")
@@ -155,8 +156,10 @@ def run(chk):
                            f"{inst}: the value is not sum_i c_i [F_i(logxmax) - {w} * F_i(logxmin)] with F_i the antiderivative of "
                            f"t^i exp(N(t - logx))", where=fl.where, instance=inst, data={"witness": info}, how="PE + PIT F_p")
     # two areas add up
-    below = {"logxmin": Fraction(-2), "logxmax": Fraction(-1), "_atol_eps": EPS, "logx": Fraction(-3)}
-    pe = PE(src, assume=lambda text, env: False if "abs(umax)" in text else _decide(" ".join(text.split()), below))
+    below = {"lmin": Fraction(-2), "lmax": Fraction(-1), "lmax2": Fraction(-1, 2), "logx": Fraction(-3)}
+    pe_box2 = [None]
+    pe = PE(src, assume=lambda text, env: decide_on_values(pe_box2[0], " ".join(text.split()), env, below))
+    pe_box2[0] = pe
     pe.ext["numpy.finfo"] = lambda p, a, k: SimpleNamespace(eps=EPS)
     a2 = Arr.from_nested([[lo, hi, dag.sym("c0"), dag.sym("c1")], [hi, dag.sym("lmax2"), dag.sym("d0"), dag.sym("d1")]])
     res = pe.call(fl.qname, [N, logx, a2])
@@ -172,14 +175,25 @@ def run(chk):
         cs = [dag.sym(f"c{i}") for i in range(deg + 1)]
         for rname, active in (("below-upper", True), ("above", False)):
             def assume2(text, env, rname=rname):
+                # judged on values: a generic lower bound is not 0; the inversion point against the logarithm of the upper bound is
+                # the regime under evaluation
                 s = " ".join(text.split())
-                if "logx >= lnxmax" in s:
-                    return rname == "above"
-                if "xmin == 0.0" in s:
-                    return False
+                r = decide_on_values(box3[0], s, env)
+                if r is not None:
+                    return r
+                try:
+                    t_ = ast.parse(s, mode="eval").body
+                    if isinstance(t_, ast.Compare) and len(t_.ops) == 1 and isinstance(t_.ops[0], (ast.GtE, ast.Gt)):
+                        lv, rv = box3[0].eval(t_.left, env), box3[0].eval(t_.comparators[0], env)
+                        if lv is logx and dag.tonode(rv) is dag.fn("log", xhi):
+                            return rname == "above"
+                except Exception:
+                    pass
                 return None
 
+            box3 = [None]
             pe = PE(src, assume=assume2)
+            box3[0] = pe
             res = pe.call(fn.qname, [N, logx, Arr.from_nested([[xlo, xhi] + cs])])
             want = dag.const(0)
             if active:
@@ -245,9 +259,29 @@ def run(chk):
                    f"offset={off}: r = {dag.short(dag.tonode(rr))}, o = {oo}; required r = 6.4/(0.1 - logx), o = {1 if off else 0}", where=pcls.where,
                    instance=f"path,{off}", how="PE")
     fi = qk.methods["integrand"]
-    ttxt = " ".join(ast.unparse(fi.node).split())
-    chk.decide("self.path.prefactor * pj * self.path.jac" in ttxt and "if self.logx == 0.0: return 0.0" in ttxt.replace("\n", " "),
-               "integrand-structure", fi.qname, "the integrand is no longer prefactor * basis(N) * jacobian (zero at logx = 0)", where=fi.where)
+    # evaluated with a symbolic path and a recording basis evaluation: prefactor * basis(N) * jacobian, and 0 at x = 1 (logx = 0)
+    from ..pe import Opaque
+
+    for lx, label in ((dag.sym("logx"), "generic x"), (0, "x = 1")):
+        pe = PE(src, assume=lambda text, env: False if "== 0" in text else None)   # a generic basis value / logx is not 0
+        seen = []
+        pe.overrides["eko.interpolation.evaluate_grid"] = lambda p_, a, k: seen.append(list(a)) or dag.sym("PJ")
+        o_ = Obj(qk)
+        pth = Opaque()
+        pth.n, pth.prefactor, pth.jac = dag.sym("NN"), dag.sym("PRE"), dag.sym("JAC")
+        o_.attrs.update(path=pth, is_log=True, logx=lx)
+        try:
+            r_ = pe.apply(pe.getattr(o_, "integrand"), ["AREAS"], {})
+            if label == "x = 1":
+                ok_ = dag.as_const(dag.tonode(r_)) == 0 and not seen
+            else:
+                ok_ = dag.is_zero_fp([dag.sub(dag.tonode(r_), dag.mul(dag.mul(dag.sym("PRE"), dag.sym("PJ")), dag.sym("JAC")))], chk.seed, 2)[0] \
+                    and len(seen) == 1 and seen[0][0] is dag.sym("NN") and seen[0][1] is True and seen[0][2] is lx and seen[0][3] == "AREAS"
+            msg_ = f"value {dag.short(dag.tonode(r_))}, basis evaluated with {[str(x) for x in (seen[0] if seen else [])]}"
+        except PERaise as e:
+            ok_, msg_ = False, f"raises {e}"
+        chk.decide(ok_, "integrand-structure", fi.qname, f"{label}: {msg_}; required prefactor * basis(N; is_log, logx, areas) * jacobian, and 0 without "
+                   f"evaluating anything at logx = 0", where=fi.where, instance=label, how="PE with a symbolic path")
     pf = pe.getattr(pe.instantiate(pcls.qname, [dag.sym("t"), dag.sym("logx"), False]), "prefactor") if False else None
     chk.note(identities=n_id, files=["src/eko/interpolation.py", "src/eko/mellin.py", "src/eko/evolution_operator/quad_ker.py"])
     chk.explanation = "N-space basis formula in all regimes, overflow-poison rule, contour jacobian and offset table."
